@@ -287,3 +287,132 @@ pub fn large(ctx: &Ctx) -> Stats {
     }
     st
 }
+
+fn clean_segments_count(seq: &[u8], k: usize) -> u64 {
+    // number of valid k-windows of a sequence over {A, N}: sum over clean segments of max(0, len - k + 1)
+    let mut total = 0u64;
+    let mut run = 0usize;
+    for &b in seq.iter().chain(std::iter::once(&b'N')) {
+        if b == b'N' {
+            if run >= k {
+                total += (run - k + 1) as u64;
+            }
+            run = 0;
+        } else {
+            run += 1;
+        }
+    }
+    total
+}
+
+/// records whose length sits at / around powers of two plus k ("block seams" of any chunked processing), with
+/// ambiguous bytes right at those offsets; homopolymer content so that the expected count is analytic
+pub fn seams(ctx: &Ctx) -> Stats {
+    let mut st = Stats::new();
+    let blocks: &[usize] = if ctx.tier == Tier::Quick { &[1 << 16, 1 << 20] } else { &[1 << 16, 1 << 20, 1 << 22, 1 << 24] };
+    let mut i = 0u64;
+    for &blk in blocks {
+        for k in [1usize, 3, 4, 7] {
+            for delta in [0isize, -1, 1, k as isize - 1, k as isize, k as isize + 1] {
+                i += 1;
+                let mult = 1 + (i as usize % 2);
+                let len = (blk * mult) as isize + delta;
+                if len <= 0 {
+                    continue;
+                }
+                let mut seq = vec![b'A'; len as usize];
+                // every other case: an ambiguous byte just before / at / after a block boundary
+                let mut n_pos = Vec::new();
+                if i % 2 == 0 {
+                    for off in [blk as isize - 2, blk as isize - 1, blk as isize, (blk * mult) as isize - k as isize] {
+                        if off > 0 && (off as usize) < seq.len() && (i as isize + off) % 3 != 0 {
+                            seq[off as usize] = b'N';
+                            n_pos.push(off as usize);
+                        }
+                    }
+                }
+                let exp = clean_segments_count(&seq, k);
+                st.case(true, mix(i) ^ mix(len as u64));
+                st.class(&format!("block=2^{}", blk.trailing_zeros()));
+                let case = || Json::obj().set("layout", Json::s(format!("A*{} with N at {:?}", len, n_pos))).set("k", Json::u(k)).set("expected_windows", Json::Int(exp as i128));
+                note_current_case(ctx, &case());
+                let c = cols(k);
+                let r = guarded(|| {
+                    let mut cr = OligoComputer::new("u.fa".into(), "u.out".into(), k);
+                    cr.set_norm(false);
+                    let mut c2 = OligoComputer::new("u.fa".into(), "u.out".into(), k);
+                    c2.set_norm(false);
+                    c2.set_threads(3);
+                    (cr.verif_vectorise_one(&seq), c2.verif_vectorise_one(&seq))
+                });
+                match r {
+                    Err(p) => st.violate(&panic_sig(&p), p, case()),
+                    Ok((v, v3)) => {
+                        // all windows are poly-A: canonical code 0 is column 0
+                        let sum: f64 = v.iter().sum();
+                        if v[0] != exp as f64 || sum != exp as f64 || v3 != v {
+                            st.violate("oligo.value.count:seam", format!("poly-A column holds {} (sum {}), expected {} windows; threads=3 agrees: {}", v[0], sum, exp, v3 == v), case());
+                        }
+                        let _ = c;
+                    }
+                }
+                if i % 11 == 0 {
+                    st.sample(case());
+                }
+            }
+        }
+    }
+    st
+}
+
+/// the printed rows of a very long record through the *file* API (mapped and batch writer): frequencies
+/// between 5e-7 and 1e-6 must round to 0.000001, ties and values just below/above the 6th decimal
+pub fn largefile(ctx: &Ctx) -> Stats {
+    let mut st = Stats::new();
+    let n = ctx.pick(2u64, 6u64);
+    for i in 0..n {
+        if ctx.expired() {
+            st.truncated = true;
+            break;
+        }
+        let mut rng = Rng::keyed(ctx.seed, "c04.largefile", i);
+        let k = rng.usize(2, 4);
+        // poly-A body with a few rare k-mers: counts 1..3 out of 1.2-3.4 million windows
+        let len = rng.usize(1_200_000, 3_400_000);
+        let mut seq = vec![b'A'; len];
+        let rare = rng.usize(1, 3);
+        for j in 0..rare {
+            let p = rng.usize(k, len - 2 * k - 1) / (rare + 1) * (j + 1);
+            seq[p] = b'C';
+        }
+        if rng.chance(1, 2) {
+            let l = seq.len();
+            seq[l - 1] = b'G';
+        }
+        let recs = vec![
+            refmodel::gen::Rec { id: "small".into(), desc: None, seq: b"ACGTTGCAAC".to_vec() },
+            refmodel::gen::Rec { id: "huge".into(), desc: None, seq },
+            refmodel::gen::Rec { id: "tail".into(), desc: None, seq: b"GGGGCC".to_vec() },
+        ];
+        let sc = Scratch::new(ctx, "c04L");
+        let inp = write_input(&sc, "in", &recs, &Container::FastaSingle, None, &mut rng);
+        for writer in [Writer::Public, Writer::Batch] {
+            let cfg = OligoCfg { k, threads: rng.usize(1, 4), memory: 4 << 30, header: false, delim: " ".into(), norm: true, writer };
+            st.case(true, mix(i) ^ mix(len as u64) ^ mix(writer as u64));
+            st.class(&format!("writer={:?}", writer));
+            let case = || Json::obj().set("cfg", cfg.json()).set("layout", Json::s(format!("poly-A record of {} bases with {} isolated C", len, rare)));
+            let run = run_oligo(&inp, &sc.path("out.kmers"), &cfg, None);
+            match run.result {
+                Err(p) => st.violate(&panic_sig(&p), p, case()),
+                Ok(Err(e)) => st.violate("oligo.error", e, case()),
+                Ok(Ok(())) => {
+                    if let Err((sig, msg)) = check_rows(&run.output.unwrap_or_default(), &recs, &cfg) {
+                        st.violate(&format!("{}:largefile", sig), msg, case());
+                    }
+                }
+            }
+        }
+        st.sample(Json::obj().set("k", Json::u(k)).set("huge_record_bases", Json::u(len)).set("rare_kmers", Json::u(rare)));
+    }
+    st
+}
